@@ -23,7 +23,40 @@ var c17Counts = map[string]int{"quick": 60_000, "thorough": 1_500_000}
 
 func isBinOp(t string) bool { return t == "&" || t == "|" || t == "->" || t == "=" || t == ";" }
 
+// exhaustive part: every sequence of 1..L tokens over {a, b, ^, &, |, ->, =, ;, (, )}
+var c17Alphabet = []string{"a", "b", "^", "&", "|", "->", "=", ";", "(", ")"}
+var c17ExhLen = map[string]int{"quick": 5, "thorough": 6}
+
+func c17ExhTotal(tier string) int {
+	t, p := 0, 1
+	for l := 1; l <= c17ExhLen[tier]; l++ {
+		p *= len(c17Alphabet)
+		t += p
+	}
+	return t
+}
+
+func c17ExhCase(tier string, idx int) *C17Case {
+	p := 1
+	for l := 1; l <= c17ExhLen[tier]; l++ {
+		p *= len(c17Alphabet)
+		if idx < p {
+			toks := make([]string, l)
+			for i := 0; i < l; i++ {
+				toks[i] = c17Alphabet[idx%len(c17Alphabet)]
+				idx /= len(c17Alphabet)
+			}
+			return &C17Case{Tokens: toks, Text: strings.Join(toks, " "), Corrupt: "exhaustive"}
+		}
+		idx -= p
+	}
+	panic("bad index")
+}
+
 func c17Gen(r *gen.Rng, tier string, idx int) interface{} {
+	if idx < c17ExhTotal(tier) {
+		return c17ExhCase(tier, idx)
+	}
 	o := gen.FormulaOpts{MaxDepth: r.Range(1, 5), NbVars: r.Range(1, 6), TextOnly: true, Seq: r.Chance(1, 3), NegUniq: true, MaxGroup: 0}
 	if r.Chance(1, 3) {
 		o.MaxGroup = r.Range(1, 6)
@@ -129,6 +162,9 @@ func c17Run(ci interface{}, rec *Rec) {
 	c := ci.(*C17Case)
 	// the reference reading of the token list
 	tree, refErr := ref.ParseTokens(c.Tokens)
+	if c.Corrupt == "exhaustive" {
+		rec.Count("exhaustive_token_sequences", 1)
+	}
 	if c.Corrupt == "" && refErr != nil {
 		panic("harness: reference parser rejects a plain rendering: " + refErr.Error() + " :: " + c.Text)
 	}
@@ -148,7 +184,9 @@ func c17Run(ci interface{}, rec *Rec) {
 	rec.Count("parses", 1)
 	if refErr != nil {
 		rec.Count("malformed_texts", 1)
-		rec.Count("malformed_"+strings.SplitN(c.Corrupt, "(", 2)[0], 1)
+		if c.Corrupt != "exhaustive" {
+			rec.Count("malformed_"+strings.SplitN(c.Corrupt, "(", 2)[0], 1)
+		}
 		if err == nil {
 			rec.Viol(scen, "parse-error-missing", c.Corrupt, "malformed text %q (%v) was accepted as %v", c.Text, refErr, f)
 		} else if f != nil {
@@ -196,12 +234,12 @@ func c17Run(ci interface{}, rec *Rec) {
 func init() {
 	register(&Prop{
 		ID:       "C17",
-		NumCases: func(tier string) int { return c17Counts[tier] },
+		NumCases: func(tier string) int { return c17ExhTotal(tier) + c17Counts[tier] },
 		Gen:      c17Gen,
 		New:      func() interface{} { return &C17Case{} },
 		Run:      c17Run,
 		Setup:    func(string) { InstallSeqHooks() },
-		Rule: "random syntax trees (depth <= 5, 1..6 variables, operators ^ & | -> = ; and exactly-one groups of 1..6 variables, ';' also inside parentheses) rendered with minimal parentheses by the documented priorities and right nesting, with some redundant parentheses, or fully parenthesised, and with no / single / mixed whitespace (spaces, tabs, newlines); one third of the texts are then corrupted at token level (identifier deleted, operator doubled or deleted, parenthesis deleted or inserted, trailing tokens). The harness's own reader of the documented grammar decides whether a text is well formed and what it means; bf.Parse must succeed and agree under every assignment (Eval), or fail with an error and a nil formula. " +
+		Rule: "exhaustive: every sequence of 1..5 (thorough: 1..6) tokens over {a, b, ^, &, |, ->, =, ;, (, )}, each classified and read by the harness's own reader of the documented grammar; random: syntax trees (depth <= 5, 1..6 variables, operators ^ & | -> = ; and exactly-one groups of 1..6 variables, ';' also inside parentheses) rendered with minimal parentheses by the documented priorities and right nesting, with some redundant parentheses, or fully parenthesised, and with no / single / mixed whitespace (spaces, tabs, newlines); one third of the texts are then corrupted at token level (identifier deleted, operator doubled or deleted, parenthesis deleted or inserted, trailing tokens). The harness's own reader of the documented grammar decides whether a text is well formed and what it means; bf.Parse must succeed and agree under every assignment (Eval), or fail with an error and a nil formula. " +
 			"non-trivial = well-formed text of >= 5 tokens or malformed text of >= 3 tokens; distinct by token list",
 		Assumptions: []string{
 			"reference tokenizer / recursive-descent reader of the grammar documented in bf/doc.go and bf/parser.go (internal/ref)",
